@@ -24,6 +24,7 @@ type c04Set struct {
 	Tuples []c04Tuple
 	Upper  bool // single column grouped by upper(k)
 	Alias  bool // every grouping column but the first is selected under an alias (b AS b_x)
+	Nested bool // the first grouping column is the nested path d.x (selected AS a); rows also carry a top-level x with other values
 }
 
 // outName: the name under which grouping column i is reported.
@@ -40,27 +41,30 @@ func (s c04Set) outName(i int) string {
 var us = "\x1f"
 
 var c04Sets = []c04Set{
-	{"none", 0, []c04Tuple{{}}, false, false},
-	{"pipe1", 1, []c04Tuple{{"a|b"}, {"a"}, {"b"}, {""}}, false, false},
-	{"null1", 1, []c04Tuple{{nil}, {""}, {"\x00NULL"}}, false, false},
-	{"missing1", 1, []c04Tuple{{c04Missing}, {""}, {"a"}}, false, false},
-	{"num1", 1, []c04Tuple{{1}, {1.5}, {-1}, {0}}, false, false},
-	{"us1", 1, []c04Tuple{{"a" + us + "b"}, {"a"}, {"b"}}, false, false},
-	{"upper1", 1, []c04Tuple{{"a"}, {"A"}, {"b"}}, true, false},
-	{"pipe2", 2, []c04Tuple{{"a|b", "c"}, {"a", "b|c"}, {"a", "b"}}, false, false},
-	{"us2", 2, []c04Tuple{{"a" + us + "b", "c"}, {"a", "b" + us + "c"}, {"a", "c"}}, false, false},
-	{"null2", 2, []c04Tuple{{nil, "x"}, {"", "x"}, {"\x00NULL", "x"}}, false, false},
-	{"comma2", 2, []c04Tuple{{"a,b", "c"}, {"a", "b,c"}, {"1", "2"}}, false, false},
-	{"num2", 2, []c04Tuple{{1, 1.5}, {1, -1}, {0, 1}}, false, false},
-	{"bignum1", 1, []c04Tuple{{16777216.0}, {16777217.0}, {9007199254740992.0}, {0.1}}, false, false},
-	{"bignum2", 2, []c04Tuple{{1700000000123.0, "x"}, {1700000000124.0, "x"}, {1700000000123.0, "y"}}, false, false},
-	{"bigint1", 1, []c04Tuple{{int64(9007199254740993)}, {int64(9007199254740992)}, {int64(-9007199254740993)}}, false, false},
-	{"nullnull2", 2, []c04Tuple{{nil, nil}, {"", ""}, {"a", nil}}, false, false},
-	{"pipe3", 3, []c04Tuple{{"a|b", "c", "d"}, {"a", "b|c", "d"}, {"a", "b", "c|d"}}, false, false},
-	{"empty3", 3, []c04Tuple{{"a", "", "b"}, {"a", "b", ""}, {"", "a", "b"}}, false, false},
+	{"none", 0, []c04Tuple{{}}, false, false, false},
+	{"pipe1", 1, []c04Tuple{{"a|b"}, {"a"}, {"b"}, {""}}, false, false, false},
+	{"null1", 1, []c04Tuple{{nil}, {""}, {"\x00NULL"}}, false, false, false},
+	{"missing1", 1, []c04Tuple{{c04Missing}, {""}, {"a"}}, false, false, false},
+	{"num1", 1, []c04Tuple{{1}, {1.5}, {-1}, {0}}, false, false, false},
+	{"us1", 1, []c04Tuple{{"a" + us + "b"}, {"a"}, {"b"}}, false, false, false},
+	{"upper1", 1, []c04Tuple{{"a"}, {"A"}, {"b"}}, true, false, false},
+	{"pipe2", 2, []c04Tuple{{"a|b", "c"}, {"a", "b|c"}, {"a", "b"}}, false, false, false},
+	{"us2", 2, []c04Tuple{{"a" + us + "b", "c"}, {"a", "b" + us + "c"}, {"a", "c"}}, false, false, false},
+	{"null2", 2, []c04Tuple{{nil, "x"}, {"", "x"}, {"\x00NULL", "x"}}, false, false, false},
+	{"comma2", 2, []c04Tuple{{"a,b", "c"}, {"a", "b,c"}, {"1", "2"}}, false, false, false},
+	{"num2", 2, []c04Tuple{{1, 1.5}, {1, -1}, {0, 1}}, false, false, false},
+	{"bignum1", 1, []c04Tuple{{16777216.0}, {16777217.0}, {9007199254740992.0}, {0.1}}, false, false, false},
+	{"bignum2", 2, []c04Tuple{{1700000000123.0, "x"}, {1700000000124.0, "x"}, {1700000000123.0, "y"}}, false, false, false},
+	{"bigint1", 1, []c04Tuple{{int64(9007199254740993)}, {int64(9007199254740992)}, {int64(-9007199254740993)}}, false, false, false},
+	{"nullnull2", 2, []c04Tuple{{nil, nil}, {"", ""}, {"a", nil}}, false, false, false},
+	{"pipe3", 3, []c04Tuple{{"a|b", "c", "d"}, {"a", "b|c", "d"}, {"a", "b", "c|d"}}, false, false, false},
+	{"empty3", 3, []c04Tuple{{"a", "", "b"}, {"a", "b", ""}, {"", "a", "b"}}, false, false, false},
 	// "reports that tuple under the selected column names": an un-renamed column before renamed ones
-	{"alias2", 2, []c04Tuple{{"a", "x"}, {"a", "y"}, {"b", "x"}}, false, true},
-	{"alias3", 3, []c04Tuple{{"a", "x", 1}, {"a", "y", 1}, {"a", "x", 2}}, false, true},
+	{"alias2", 2, []c04Tuple{{"a", "x"}, {"a", "y"}, {"b", "x"}}, false, true, false},
+	{"alias3", 3, []c04Tuple{{"a", "x", 1}, {"a", "y", 1}, {"a", "x", 2}}, false, true, false},
+	// GROUP BY on a nested path; time windows only (keyed windows do not resolve qualified keys: known finding under C16)
+	{"nested1", 1, []c04Tuple{{"p"}, {"q"}, {nil}}, false, false, true},
+	{"nested2", 2, []c04Tuple{{"p", 1}, {"q", 1}, {"p", 2}}, false, false, true},
 }
 
 var c04Kinds = []string{"tumbling", "counting", "session", "global"}
@@ -117,6 +121,9 @@ func c04Configs(tier string) []c04Cfg {
 			if k == "session" && c04Sets[si].Cols == 0 {
 				continue // without a key the sentinel joins the same session stream: that is C10's subject
 			}
+			if c04Sets[si].Nested && k != "tumbling" {
+				continue
+			}
 			out = append(out, c04Cfg{Set: si, Kind: k, MaxL: maxL})
 		}
 	}
@@ -138,6 +145,9 @@ func c04SQL(set c04Set, kind string) string {
 		if set.Upper {
 			sel = append(sel, "upper(a) AS ua")
 			grp = append(grp, "upper(a)")
+		} else if set.Nested && i == 0 {
+			sel = append(sel, "d.x AS a")
+			grp = append(grp, "d.x")
 		} else if set.Alias && i > 0 {
 			sel = append(sel, c04ColNames[i]+" AS "+set.outName(i))
 			grp = append(grp, c04ColNames[i])
@@ -269,6 +279,11 @@ func c04Feed(set c04Set, kind string, seq []int) func(e *Env) {
 			r := Row{"id": id, "ts": ts}
 			for i, c := range t {
 				if c == c04Missing {
+					continue
+				}
+				if set.Nested && i == 0 {
+					r["d"] = map[string]any{"x": c, "y": "other"}
+					r["x"] = fmt.Sprint("shadow", id%2) // a top-level column named like the last path segment
 					continue
 				}
 				r[c04ColNames[i]] = c
